@@ -29,6 +29,10 @@ def gen(rng, tier):
     for L in layers:
         if L["t"] == "throttle":
             L["block"] = False   # blocking mode is C07's subject (its lost wake-up would only add latency here)
+        if L["t"] == "poll" and rng.random() < 0.3:
+            # a raising poll call fails what it was shown (those futures are exempt below), but
+            # must not make any other future disappear
+            L["raise_at"] = sorted(set(rng.choice([1, 2, 3, 4]) for _ in range(rng.choice([1, 2]))))
     subs = {}
     clients = []
     sid = 0
@@ -86,6 +90,7 @@ def check(spec, env):
     out = []
     cancelled_ops = set(e[5] for e in sim.log if e[3] == "op" and e[4] == "cancel")
     types = "+".join(L["t"] for L in spec["layers"])
+    poll_raised = any(e[3] == "ufn" and e[4] == "poll-raise" for e in sim.log)
     calls = {}
     for e in sim.log:
         if e[3] == "call":
@@ -103,6 +108,8 @@ def check(spec, env):
         if s in cancelled_ops or st[0] == "cancelled":
             continue
         (o, ncalls, _, _) = model.eval_sub(spec, s)
+        if poll_raised and st[0] != "pending":
+            continue   # which futures a raising poll call was shown is schedule-dependent (C08 judges it)
         if st[0] == "pending":
             out.append({"oracle": "dropped", "sig": "pending-at-end|%s" % _culprit(spec),
                         "msg": "submission %d still pending %.1fs after everything quiesced; model says %r; layers %s"
